@@ -92,7 +92,7 @@ def theorems_of(prop):
             m1 = re.match(r"^\s*namespace\s+(\S+)", line)
             m2 = re.match(r"^\s*section(?:\s+(\S+))?\s*$", line)
             m3 = re.match(r"^\s*end(?:\s+(\S+))?\s*$", line)
-            m4 = re.match(r"^\s*(?:@\[[^\]]*\]\s*)?(?:private\s+|protected\s+)?theorem\s+([A-Za-z0-9_.']+)", line)
+            m4 = re.match(r"^\s*(?:@\[[^\]]*\]\s*)?(?:protected\s+)?theorem\s+([A-Za-z0-9_.']+)", line)
             if m1:
                 stack.append(("ns", m1.group(1)))
             elif m2:
@@ -405,11 +405,12 @@ def run_check(prop, tier, seed, t0):
                            "tables_total_and_ready": sum(1 for r in good for l in r.get("out", []) if l.startswith("G ") and len(l.split()) >= 13 and l.split()[11:13] == ["1", "1"]),
                            "all_buffers_unordered_and_an_agv": sum(1 for r in good for l in r.get("out", []) if l.startswith("G ") and len(l.split()) >= 17 and l.split()[15:17] == ["1", "1"]),
                            "in_the_class_of_c05_step_never_raises": sum(1 for r in good for l in r.get("out", []) if l.startswith("G ") and len(l.split()) >= 19 and l.split()[17] == "1"),
+                           "in_that_class_with_enough_fuel": sum(1 for r in good for l in r.get("out", []) if l.startswith("G ") and len(l.split()) >= 20 and l.split()[17] == "1" and l.split()[19] == "1"),
                            "classic_instances_of_c06": sum(1 for r in good for l in r.get("out", []) if l.startswith("G ") and len(l.split()) >= 19 and l.split()[18] == "1"),
-                           "classic_run_hypotheses_confirmed": sum(1 for r in good for l in r.get("out", []) if l == "K 1 1 1"),
+                           "classic_run_hypotheses_confirmed": sum(1 for r in good for l in r.get("out", []) if l == "K 1 1 1 1 1"),
                            "outage_records_at_rest": sum(1 for r in good for l in r.get("out", []) if l.startswith("G ") and len(l.split()) >= 15 and l.split()[13:15] == ["1", "1"]),
                            "structural_guards_hold": sum(1 for r in good for l in r.get("out", []) if l.startswith("G 1 1 1 1")),
-                           "meaning": "G <wfB> <shapeB> <conservedB> <capB> <restB> <placedB> <nonnegB> <samples>=0> <detInstB> <noOutagesB> <tablesTotalB> <readyB> <outRestB> <outPastB> <flexInstB> <hasAgvB> <totalClassB> <classicInstB>: the first eight are the decidable hypotheses of the structural and schedule theorems (Start), evaluated on the real compiled instance and on the model; scenarios where a guard is 0 (e.g. a non-rest initial state written in the DSL) lie outside the theorems and are covered by the correspondence + monitors only; detInstB (no stochastic element) is the hypothesis of the seed-independence theorems of C13, noOutagesB that of C12's translation invariance, tablesTotalB/readyB those of C05's 'an offered transition applies without raising', outRestB/outPastB those of C10's outage-record invariants, flexInstB/hasAgvB those of C11's progress theorem, totalClassB (JSL/Model/Roomy.lean) the class in which no step raises (C05), classicInstB (JSL/Model/Classic.lean) the class of C06's reachability theorems; a line `K 1 1 1` after the reset of a scenario the generator calls classic confirms on the model side that the instance, the initial state and the fuel meet the hypotheses of ClassicRun"},
+                           "meaning": "G <wfB> <shapeB> <conservedB> <capB> <restB> <placedB> <nonnegB> <samples>=0> <detInstB> <noOutagesB> <tablesTotalB> <readyB> <outRestB> <outPastB> <flexInstB> <hasAgvB> <totalClassB> <classicInstB> <fuelOKB>: the first eight are the decidable hypotheses of the structural and schedule theorems (Start), evaluated on the real compiled instance and on the model; scenarios where a guard is 0 (e.g. a non-rest initial state written in the DSL) lie outside the theorems and are covered by the correspondence + monitors only; detInstB (no stochastic element) is the hypothesis of the seed-independence theorems of C13, noOutagesB that of C12's translation invariance, tablesTotalB/readyB those of C05's 'an offered transition applies without raising', outRestB/outPastB those of C10's outage-record invariants, flexInstB/hasAgvB those of C11's progress theorem, totalClassB (JSL/Model/Roomy.lean) the class in which no step raises (C05), classicInstB (JSL/Model/Classic.lean) the class of C06's reachability theorems, fuelOKB (JSL/Model/FuelBound.lean) the bound on the rounds of the timed loop under which C05's steps return and C11's always-accept run terminates; a line `K 1 1 1 1 1` after the reset of a scenario the generator calls classic confirms on the model side that the instance, the initial state, the fuel (both bounds) and the number of AGVs meet the hypotheses of ClassicRun and ClassicRunEarly"},
         "families": fams, "transitions_by_handler": stats, "error_classes_seen": errs,
         "env_steps": sum(r.get("steps", 0) for r in good),
         "monitor_findings_known": len(old), "monitor_findings_new": len(new),
